@@ -331,8 +331,12 @@ class FWStub:
         return SB(z3.Bool(self.c.fresh_name("same_best_point")))
 
     def merit(self, x, fun_val=None, cub_val=None, ceq_val=None):
-        self.c.oblige("C06.minimize.merit_called_with_values", z3.BoolVal(not (fun_val is None or cub_val is None or ceq_val is None)),
-                      props=["C06"], note="TrustRegion.merit called without values would evaluate the problem behind the scenes")
+        missing = fun_val is None or cub_val is None or ceq_val is None
+        self.c.oblige("C06.minimize.merit_called_with_values", z3.BoolVal(not missing),
+                      props=["C06", "C05", "C09"], note="TrustRegion.merit called without values evaluates the problem behind the scenes")
+        if missing:
+            # contract of TrustRegion.merit (unit framework.merit): without values it makes one evaluation of the problem, outside _eval
+            self.pb.nev = self.pb.nev + 1
         return SF.fresh("merit", finite=True)
 
     def get_second_order_correction_step(self, step, options): return Vec("soc")
